@@ -1,7 +1,10 @@
 """Generator of `mech` cases (C17): a mechanism catalogue, then creations of rule-level variants in random order,
 executions and concurrent executions. `SERVER` / `KEYSTORE` are placeholders the Go harness replaces by its loopback
-test server and its key store file. All values are spelled canonically (durations as `<n>s` / `<n>m`), no override
-ever sets a zero value except where that is the point (`cache_ttl: 0s`)."""
+test server and its key store file. All values are spelled canonically (durations as `<n>s` / `<n>m`). Besides the
+ordinary override fragments every overridable key has a zero-valued fragment (`""`, `[]`, `{}`, `0s`, `false`: ZERO)
+and every type a few fragments whose *values* its decoder / validator rejects (BAD; such operations carry
+`invalid: true`, the model takes the rejection as given and the run checks that nothing was changed by the failed
+attempt)."""
 
 SRV = "http://SERVER"
 
@@ -79,6 +82,51 @@ def token_authn_overrides(rng):
     if not ov:
         ov["cache_ttl"] = "9s"
     return ov
+
+
+# zero-valued fragments per (kind, type): the rule sets the key, to the zero value of its type
+ASSERT_ZERO = [{"assertions": {"issuers": []}}, {"assertions": {"audience": []}}, {"assertions": {"allowed_algorithms": []}},
+               {"assertions": {"validity_leeway": "0s"}}, {"assertions": {"scopes": []}}, {"cache_ttl": "0s"},
+               {"allow_fallback_on_error": False}]
+ZERO = {
+    ("authenticator", "anonymous"): [{"subject": ""}],
+    ("authenticator", "basic_auth"): [{"user_id": ""}, {"password": ""}, {"user_id": "u2", "password": ""},
+                                      {"allow_fallback_on_error": False}],
+    ("authenticator", "generic"): [{"cache_ttl": "0s"}, {"allow_fallback_on_error": False}],
+    ("authenticator", "jwt"): ASSERT_ZERO,
+    ("authenticator", "oauth2_introspection"): ASSERT_ZERO,
+    ("authorizer", "remote"): [{"payload": ""}, {"expressions": []}, {"forward_response_headers_to_upstream": []},
+                               {"values": {}}, {"cache_ttl": "0s"}],
+    ("contextualizer", "generic"): [{"payload": ""}, {"forward_headers": []}, {"forward_cookies": []}, {"values": {}},
+                                    {"cache_ttl": "0s"}, {"continue_pipeline_on_error": False}],
+    ("finalizer", "jwt"): [{"claims": ""}],
+    ("finalizer", "oauth2_client_credentials"): [{"scopes": []}, {"cache_ttl": "0s"},
+                                                 {"header": {"name": "X-Other", "scheme": ""}}],
+    ("error_handler", "www_authenticate"): [{"realm": ""}],
+}
+# fragments with a value the type's decoder / validator rejects (also zero values that are no legal setting)
+BAD_TTL = [{"cache_ttl": "abc"}]
+BAD_ASSERT = BAD_TTL + [{"assertions": {"scopes": {"matching_strategy": "nope", "values": ["a"]}}},
+                        {"assertions": {"issuers": "iss1"}}]
+BAD = {
+    ("authenticator", "anonymous"): [{"subject": ["a"]}],
+    ("authenticator", "basic_auth"): [{"allow_fallback_on_error": "maybe"}],
+    ("authenticator", "generic"): BAD_TTL,
+    ("authenticator", "jwt"): BAD_ASSERT,
+    ("authenticator", "oauth2_introspection"): BAD_ASSERT,
+    ("authorizer", "cel"): [{"expressions": [{"expression": "bad("}]}, {"expressions": []},
+                            {"expressions": [{"expression": "1 + 1"}]}],
+    ("authorizer", "remote"): BAD_TTL + [{"payload": "{{ bad"}, {"values": {"a": "{{ bad"}},
+                                         {"expressions": [{"expression": "bad("}]}, {"payload": "fine", "expressions": [{"expression": "1 +"}]},
+                                         {"forward_response_headers_to_upstream": "X-A"}],
+    ("contextualizer", "generic"): BAD_TTL + [{"payload": "{{ bad"}, {"values": {"a": "{{ bad"}}, {"forward_headers": "X-A"},
+                                              {"forward_cookies": ["c1"], "cache_ttl": "1 hour"}],
+    ("finalizer", "header"): [{"headers": {}}, {"headers": {"X-A": "{{ bad"}}],
+    ("finalizer", "cookie"): [{"cookies": {}}, {"cookies": {"a": "{{ bad"}}],
+    ("finalizer", "jwt"): [{"ttl": "0s"}, {"ttl": "1s"}, {"claims": "{{ bad"}, {"ttl": "abc"}],
+    ("finalizer", "oauth2_client_credentials"): BAD_TTL + [{"header": {"name": ""}}, {"header": {"scheme": "Own"}},
+                                                           {"scopes": "s1"}],
+}
 
 
 def gen_entry(rng, kind, typ, idx):
@@ -256,6 +304,28 @@ TYPES = [
 WEIGHTS = [2, 3, 4, 7, 6, 1, 1, 3, 1, 6, 6, 2, 2, 4, 1, 5, 1, 1, 2]
 
 
+def gen_override(rng, entry, ovg):
+    """(config, invalid)"""
+    key = (entry["kind"], entry["type"])
+    q = rng.random()
+    if q < 0.13:
+        return None, False
+    if q < 0.19:
+        return {}, False
+    if q < 0.25:
+        return dict(ovg(rng), bogus=1), False
+    if q < 0.40 and key in ZERO:
+        return copy_of(pick(rng, ZERO[key])), False
+    if q < 0.50 and key in BAD:
+        return copy_of(pick(rng, BAD[key])), True
+    return ovg(rng), False
+
+
+def copy_of(x):
+    import copy
+    return copy.deepcopy(x)
+
+
 def gen_case(rng, n_ops=None, par=True):
     n_mech = rng.choice([2, 3, 3, 4])
     entries, ovgs, reqgs = [], [], []
@@ -273,21 +343,18 @@ def gen_case(rng, n_ops=None, par=True):
         if r < 0.45 or not live:
             m = rng.randrange(n_mech)
             e = entries[m]
-            q = rng.random()
-            if q < 0.15:
-                conf = None
-            elif q < 0.22:
-                conf = {}
-            elif q < 0.29:
-                conf = dict(ovgs[m](rng), bogus=1)
-            else:
-                conf = ovgs[m](rng)
+            conf, invalid = gen_override(rng, e, ovgs[m])
+            op = {"op": "create", "kind": e["kind"], "id": e["id"], "config": conf}
+            if invalid:
+                op["invalid"] = True
             if rng.random() < 0.04:
-                ops.append({"op": "create", "kind": e["kind"], "id": "missing", "config": conf})
+                op["id"] = "missing"
                 owner.append(None)
             else:
-                ops.append({"op": "create", "kind": e["kind"], "id": e["id"], "config": conf})
-                owner.append(m)  # may still fail (bogus key); the harness and the model agree on which
+                # may still fail (bogus key, invalid value); the harness and the model agree on which, and an
+                # execution of a handle that does not exist is skipped on both sides
+                owner.append(None if invalid else m)
+            ops.append(op)
         elif r < 0.85 or not par:
             h = pick(rng, live)
             ops.append({"op": "exec", "h": h, "req": reqgs[owner[h]](rng)})
@@ -295,9 +362,14 @@ def gen_case(rng, n_ops=None, par=True):
             hs = sorted(set(pick(rng, live) for _ in range(rng.choice([1, 2, 3]))))
             reqs = [reqgs[owner[h]](rng) for h in hs]
             creates = []
-            for _ in range(rng.choice([0, 1, 2])):
+            for _ in range(rng.choice([0, 1, 2, 3])):
                 m = owner[pick(rng, hs)]
-                creates.append({"kind": entries[m]["kind"], "id": entries[m]["id"], "config": ovgs[m](rng)})
+                conf, invalid = gen_override(rng, entries[m], ovgs[m])
+                cr = {"kind": entries[m]["kind"], "id": entries[m]["id"], "config": conf}
+                if invalid:
+                    cr["invalid"] = True
+                creates.append(cr)
+                owner.append(None if invalid else m)   # the objects created during the batch are handed out after it
             ops.append({"op": "par", "hs": hs, "reqs": reqs, "n": rng.choice([4, 6, 8]), "rounds": rng.choice([1, 2]),
                         "creates": creates, "cold": False, "cache": maybe(rng, 0.3)})
     return {"fam": "mech", "catalogue": entries, "ops": ops}
@@ -323,10 +395,14 @@ def gen_cold_case(rng, types=None):
                                     ("authorizer", "remote"), ("contextualizer", "generic"), ("finalizer", "jwt"),
                                     ("finalizer", "oauth2_client_credentials"), ("authenticator", "generic")])
     e, ovg, reqg = gen_entry(rng, kind, typ, 0)
+    creates = [{"kind": kind, "id": e["id"], "config": ovg(rng)} for _ in range(rng.choice([2, 3, 4]))]
     ops = [{"op": "create", "kind": kind, "id": e["id"], "config": None},
            {"op": "create", "kind": kind, "id": e["id"], "config": ovg(rng)},
            {"op": "create", "kind": kind, "id": e["id"], "config": ovg(rng)},
            {"op": "par", "hs": [0, 1, 2], "reqs": [reqg(rng) for _ in range(3)], "n": 9, "rounds": 2,
-            "creates": [{"kind": kind, "id": e["id"], "config": ovg(rng)}], "cold": True, "cache": maybe(rng)},
-           {"op": "exec", "h": 0, "req": reqg(rng)}]
+            "creates": creates, "cold": True, "cache": maybe(rng)},
+           {"op": "exec", "h": 0, "req": reqg(rng)},
+           # the variants created while the others were executed for the first time
+           {"op": "exec", "h": 3, "req": reqg(rng)},
+           {"op": "exec", "h": 2 + len(creates), "req": reqg(rng)}]
     return {"fam": "mech", "catalogue": [e], "ops": ops}
